@@ -1,4 +1,5 @@
 import CminxModel.Cli
+import CminxProps.C16
 /-!
 # C16 — the command line as the highest-priority source
 
@@ -126,5 +127,63 @@ example : (parseArgv [lit "in"] {}).map (fun p => (cliSource p).map (·.1)) = so
 example : parseArgv [lit "a", lit "-r", lit "b"] {} = none := by decide +kernel
 example : parseArgv [lit "a", lit "-p", lit "-x"] {} = none := by decide +kernel
 example : (parseArgv [lit "a", lit "-p", lit "-1"] {}).map (·.pfx) = some (some (lit "-1")) := by decide +kernel
+
+/-! ## from the argument vector to the settings handed to `document` (`mainSettings`) -/
+
+theorem mapM_except_mem {α β ε : Type} (f : α → Except ε β) :
+    ∀ (l : List α) (out : List β), l.mapM f = .ok out → ∀ a ∈ l, ∃ b ∈ out, f a = .ok b := by
+  intro l
+  induction l with
+  | nil => intro out _ a ha; cases ha
+  | cons x xs ih =>
+    intro out h a ha
+    simp only [List.mapM_cons] at h
+    cases hx : f x with
+    | error e => simp [hx, bind, Except.bind] at h
+    | ok b =>
+      cases hxs : xs.mapM f with
+      | error e => simp [hx, hxs, bind, Except.bind] at h
+      | ok bs =>
+        simp [hx, hxs, bind, Except.bind, pure, Except.pure] at h
+        subst h
+        rcases List.mem_cons.mp ha with rfl | ha'
+        · exact ⟨b, by simp, hx⟩
+        · obtain ⟨b', hb', hf⟩ := ih bs hxs a ha'
+          exact ⟨b', by simp [hb'], hf⟩
+
+/-- a successful resolution returns, for every option of the table, the value in effect -/
+theorem C16_resolveAll_lookup (sources : List Source) (vals : List (Str × Option CVal))
+    (h : resolveAll sources = .ok vals) (k : Str) (ty : CType) (hk : (k, ty) ∈ optionTable) :
+    (k, effective sources k) ∈ vals := by
+  unfold resolveAll at h
+  obtain ⟨b, hb, hf⟩ := mapM_except_mem _ optionTable vals h (k, ty) hk
+  simp only [resolveOpt] at hf
+  cases he : effective sources k with
+  | none => simp [he, bind, Except.bind, pure, Except.pure] at hf; subst hf; simpa [he] using hb
+  | some v =>
+    by_cases ha : ty.accepts v = true
+    · simp [he, ha, bind, Except.bind, pure, Except.pure] at hf; subst hf; simpa [he] using hb
+    · simp [he, ha, bind, Except.bind] at hf
+
+/-- from the argument vector to the settings handed to `document`: a prefix given with `-p` is the prefix in effect, whatever the
+    `-s` file, the user file and the defaults say -/
+theorem C16_main_prefix_from_argv (argv : List Str) (sfile : Str → Source) (user defaults : Source)
+    (files : List Str) (vals : List (Str × Option CVal)) (filters : List CVal)
+    (h : mainSettings argv sfile user defaults = some (.ok (files, vals, filters)))
+    (p : Parsed) (hp : parseArgv argv {} = some p) (v : Str) (hv : p.pfx = some v) :
+    (lit "rst.prefix", some (CVal.str v)) ∈ vals ∧ files = p.files := by
+  unfold mainSettings at h
+  rw [hp] at h
+  simp only [Option.some.injEq] at h
+  split at h
+  · cases h
+  · rename_i vals' filters' hr
+    simp only [Except.ok.injEq, Prod.mk.injEq] at h
+    obtain ⟨hfiles, hvals, _⟩ := h
+    subst hvals
+    refine ⟨?_, hfiles.symm⟩
+    obtain ⟨_, _, hall⟩ := C16_filters_main _ _ _ hr
+    have := C16_resolveAll_lookup _ _ hall (lit "rst.prefix") .optStr (by decide)
+    rwa [C16_cli_prefix_wins p v hv] at this
 
 end Cminx
